@@ -7,6 +7,7 @@ import (
 	"errors"
 	"fmt"
 	"io"
+	"math"
 	"path"
 	"sort"
 	"strings"
@@ -40,6 +41,10 @@ const (
 // c16LastStore hands the simulated store of the stack built last to the trial (one trial at a time per worker).
 var c16LastStore *SimStore
 
+// c16LastCore: the same for the cache stack's source wrapper, with the call kind its directory reads arrive as.
+var c16LastCore *capCore
+var c16LastCoreKind string
+
 func c16StackName(k int) string {
 	return []string{"mem", "keyvalue+SimStore(sharing)", "keyvalue+SimStore(copying)", "mount", "Sub(mem)", "cache", "tar", "os.FS"}[k]
 }
@@ -47,6 +52,12 @@ func c16StackName(k int) string {
 func c16Populate(t *T, fs hackpadfs.FS, dir string, children []c16Child) {
 	if dir != "." {
 		must(t, hackpadfs.MkdirAll(fs, dir, 0755))
+		// siblings whose names merely start with the directory's name: none of them, nor anything below
+		// them, is a child of dir
+		must(t, hackpadfs.MkdirAll(fs, dir+".bak/inner", 0755))
+		must(t, hackpadfs.WriteFullFile(fs, dir+".bak/c001", []byte("x"), 0644))
+		must(t, hackpadfs.WriteFullFile(fs, dir+"x", []byte("x"), 0644))
+		must(t, hackpadfs.Mkdir(fs, dir+"-2", 0755))
 	}
 	for _, ch := range children {
 		p := path.Join(dir, ch.name)
@@ -88,8 +99,17 @@ func c16Build(t *T, k int, children []c16Child) (hackpadfs.FS, string, map[strin
 		c16Populate(t, sub, "d", children)
 		return sub, "d", nil, noop
 	case c16Cache:
-		src, _ := mem.NewFS()
-		c16Populate(t, src, "d", children)
+		srcMem, _ := mem.NewFS()
+		c16Populate(t, srcMem, "d", children)
+		// the source sits behind the fault-injecting wrapper (with or without a by-name ReadDir of its own);
+		// a failing directory read of it delivers half of the entries together with the error, like os.ReadDir
+		core := &capCore{t: t, inner: srcMem, faultAt: -1, label: "src.", partialDir: true}
+		c16LastCore, c16LastCoreKind = core, "file.ReadDir"
+		var src hackpadfs.FS = newCapFS(core, nil)
+		if t.C.Chance(1, 2) {
+			src = newCapFS(core, []string{"ReadDir", "Stat"})
+			c16LastCoreKind = "ReadDir"
+		}
 		store, _ := mem.NewFS()
 		c, err := cache.NewReadOnlyFS(src, store, cache.ReadOnlyOptions{})
 		must(t, err)
@@ -126,7 +146,7 @@ func runC16(t *T) {
 	c := t.C
 	defer beginTrial(t, true)()
 	k := c.Draw(c16Count)
-	counts := []int{3, 0, 1, 2, 5, 8, 17, 40}
+	counts := []int{3, 0, 1, 2, 5, 8, 17, 40, 70, 130} // beyond any internal batch size
 	n := counts[c.Draw(len(counts))]
 	if k == c16OS && c.Chance(1, 6) {
 		n = 400 // beyond the kernel's getdents batch
@@ -140,8 +160,12 @@ func runC16(t *T) {
 	// fault mode (stacks over the simulated store): a store call made by a page read fails once; the failed
 	// page may deliver nothing, but the pages after it still have to deliver every child exactly once
 	var faultStore *SimStore
+	var faultCore *capCore
 	if (k == c16KVShared || k == c16KVCopy) && c.Chance(1, 3) {
 		faultStore = c16LastStore
+	}
+	if k == c16Cache && c.Chance(1, 2) {
+		faultCore = c16LastCore
 	}
 	want := map[string]c16Child{}
 	for _, ch := range children {
@@ -173,7 +197,7 @@ func runC16(t *T) {
 		var sizes []int
 		faultsLeft := 0
 		faulted, failedLast := false, false
-		if faultStore != nil {
+		if faultStore != nil || faultCore != nil {
 			faultsLeft = 1 + c.Draw(2)
 		}
 		budget := total + 6 + faultsLeft
@@ -191,7 +215,7 @@ func runC16(t *T) {
 			case 4:
 				size = total + 1
 			case 5:
-				size = 1 << 20
+				size = []int{1 << 20, math.MaxInt32, math.MaxInt}[c.Draw(3)]
 			default:
 				size = -c.Draw(2) // 0 or -1
 			}
@@ -206,14 +230,27 @@ func runC16(t *T) {
 			}
 			sizes = append(sizes, size)
 			var plan *faultPlan
+			coreArmed := false
 			if faultsLeft > 0 && size > 0 && c.Chance(1, 3) {
 				faultsLeft--
-				plan = &faultPlan{t: t, at: c.Draw(3), kind: []string{"Get", "", "ReadDirNames"}[c.Weighted(3, 1, 1)], armed: true}
-				faultStore.plan = plan
+				if faultStore != nil {
+					plan = &faultPlan{t: t, at: c.Draw(3), kind: []string{"Get", "", "ReadDirNames"}[c.Weighted(3, 1, 1)], armed: true}
+					faultStore.plan = plan
+				} else {
+					faultCore.armNext(c16LastCoreKind)
+					coreArmed = true
+				}
 			}
 			page, err := hackpadfs.ReadDirFile(f, size)
 			if faultStore != nil {
 				faultStore.plan = nil
+			}
+			if coreArmed {
+				if faultCore.fired != "" {
+					t.Stat("c16:page-read-hit-by-fault")
+					faulted = true
+				}
+				faultCore.disarm()
 			}
 			t.Logf("round %d ReadDir(%d) -> %d entries, %s", r, size, len(page), errClass(err))
 			remainingBefore := total - len(all)
@@ -225,7 +262,7 @@ func runC16(t *T) {
 			}
 			if faulted {
 				sig = fam + ":page-after-store-fault"
-				if err != nil && err != io.EOF && errors.Is(err, errInjected) {
+				if err != nil && err != io.EOF && (errors.Is(err, errInjected) || errors.Is(err, errInjectedFS)) {
 					// the page failed with the store's error (a handle may go on failing with it: records cache
 					// a failed load): whatever it delivered counts, the listing goes on
 					failedLast = true
@@ -375,6 +412,7 @@ func c16Probe(k int, sizes ...int) func(t *T) {
 func init() {
 	RegisterProbe("c16-kv-no-eof", c16Probe(c16Mem, 2, 1))
 	RegisterProbe("c16-cache-page-too-long", c16Probe(c16Cache, 3, 3))
+	RegisterProbe("c16-kv-huge-page", c16Probe(c16Mem, 1, math.MaxInt))
 	Register(&Engine{
 		Prop: "C16", Name: "fsdiff/listing", Run: runC16,
 		Trials: map[string]int{"quick": 30000, "thorough": 300000},
